@@ -26,6 +26,18 @@ Flag(e, c, d) == bad' = bad \cup {[tid |-> e.tid, line |-> l, clause |-> c, deta
 Deliverable(o) == o.pw = "run" /\ Bit(o.imr, 7) = 1 /\ And4(o.imr, o.isr) # 0 /\ o.inint = 0 /\ o.s >= 5
 FramePc(fr) == fr[3] + 256 * fr[4] + 65536 * (fr[5] % 16)
 Quiet(o) == (o.nm = 0 \/ o.nm > o.cyc + 2) /\ (o.ns = 0 \/ o.ns > o.cyc + 2)
+\* the source an entry is for is the one the machine itself reports (last_irq_src / last_irq["src"], logged as post.src:
+\* 0 MTI, 1 STI, 2 KEY, 3 ONK, -1 none); with several enabled requests pending the property leaves the choice open
+\* status bits (0..3) that were set before the step and are clear after it
+Dropped(a, b) == {i \in 0..3 : Bit(a.isr, i) = 1 /\ Bit(b.isr, i) = 0}
+ClrMask(e) == IF e.kind = "CLRISR" THEN {i \in 0..3 : Bit(e.clr, i) = 1} ELSE {}
+SrcName == <<"MTI", "STI", "KEY", "ONK">>
+\* how an unexplained loss came about (a reading for the reader of the report, not part of the verdict): the request whose
+\* bit vanished was raised while the handler ran / was already pending when the handler was entered / no return was involved
+LostShape(lost, reti, top) ==
+  LET i == CHOOSE j \in lost : \A k \in lost : j <= k
+  IN (IF ~reti THEN "no-return" ELSE IF Bit(top.isr, i) = 0 THEN "raised-in-handler" ELSE "pending-at-entry") \o "-" \o SrcName[i + 1]
+       \o (IF reti /\ top.src >= 0 THEN "-returning-from-" \o SrcName[top.src + 1] ELSE "")
 
 Clause(e) ==
   LET a == e.pre  b == e.post  fr == e.frame
@@ -34,10 +46,12 @@ Clause(e) ==
       atStart == D /\ b.pc = e.vec + 1                 \* delivered first, then the handler's leading NOP ran
       atEnd == D /\ b.pc = e.vec                       \* the scripted instruction ran, then the interrupt was taken
       retiRan == e.kind = "RETI" /\ execd /\ ~atStart
-      top == IF saved # <<>> THEN saved[Len(saved)] ELSE [pc |-> 0, f |-> 0, imr |-> 0, s |-> 0]
+      top == IF saved # <<>> THEN saved[Len(saved)] ELSE [pc |-> 0, f |-> 0, imr |-> 0, s |-> 0, src |-> -1, isr |-> 0]
       sAtDelivery == IF atEnd /\ e.kind = "RETI" THEN a.s + 5 ELSE a.s
       resume == IF atStart \/ ~execd THEN a.pc ELSE IF e.kind = "RETI" THEN top.pc ELSE a.pc + e.len
   IN IF D /\ ~(Bit(fr[1], 7) = 1 /\ And4(fr[1], b.isr) # 0) THEN "DeliverOnlyIfEnabled"
+     \* ... and the source it is reported for is one of the enabled pending ones
+     ELSE IF D /\ b.src \in 0..3 /\ ~(Bit(fr[1], b.src) = 1 /\ Bit(b.isr, b.src) = 1) THEN "DeliveredSourceEnabled"
      ELSE IF D /\ ~(atStart \/ atEnd) THEN "FrameOnEntry-vector"
      ELSE IF D /\ ~(b.imr = fr[1] % 128 /\ Bit(fr[1], 7) = 1) THEN "FrameOnEntry-imr"
      ELSE IF D /\ b.s # sAtDelivery - 5 THEN "FrameOnEntry-sp"
@@ -46,6 +60,10 @@ Clause(e) ==
      ELSE IF D /\ b.inint # 1 THEN "FrameOnEntry-state"
      ELSE IF retiRan /\ saved # <<>> /\ ~D /\ <<b.pc, b.f, b.imr, b.s>> # <<top.pc, top.f, top.imr, top.s>> THEN "RetiRestores"
      ELSE IF retiRan /\ saved # <<>> /\ D /\ <<FramePc(fr), fr[2], fr[1], b.s + 5>> # <<top.pc, top.f, top.imr, top.s>> THEN "RetiRestores"
+     \* a pending request is never lost: a status bit goes away only through the firmware's own write to ISR or, at RETI, for
+     \* the source whose handler returns
+     \* (powering off resets the controller; the property says nothing about requests across a power-off)
+     ELSE IF a.pw # "off" /\ b.pw # "off" /\ Dropped(a, b) \ (ClrMask(e) \cup (IF retiRan /\ saved # <<>> THEN {top.src} ELSE {})) # {} THEN "StatusNotLost"
      ELSE IF prevDue /\ Deliverable(a) /\ Deliverable(b) /\ ~D THEN "PromptAfterUnmask"
      ELSE IF a.pw = "halt" /\ And4(a.isr, 15) = 0 /\ And4(b.isr, 15) = 0 /\ b.pw = "halt" /\ ~(b.pc = a.pc /\ b.instr = a.instr /\ b.f = a.f /\ b.s = a.s /\ b.imr = a.imr) THEN "HaltExecutesNothing"
      ELSE IF a.pw = "halt" /\ And4(a.isr, 15) # 0 /\ b.pw = "halt" /\ ~execd THEN "HaltWakesOnStatus"
@@ -67,8 +85,13 @@ TNext ==
               retiRan == e.kind = "RETI" /\ execd /\ ~atStart
               s1 == IF retiRan /\ saved # <<>> THEN SubSeq(saved, 1, Len(saved) - 1) ELSE saved
               sAtDelivery == IF D /\ ~atStart /\ e.kind = "RETI" THEN a.s + 5 ELSE a.s
-          IN /\ (IF c = "ok" THEN bad' = bad ELSE Flag(e, c, <<e.kind, a, b, fr>>))
-             /\ saved' = IF D THEN Append(s1, [pc |-> FramePc(fr), f |-> fr[2], imr |-> fr[1], s |-> sAtDelivery]) ELSE s1
+              top == IF saved # <<>> THEN saved[Len(saved)] ELSE [pc |-> 0, f |-> 0, imr |-> 0, s |-> 0, src |-> -1, isr |-> 0]
+              lost == Dropped(a, b) \ (ClrMask(e) \cup (IF retiRan /\ saved # <<>> THEN {top.src} ELSE {}))
+              why == IF c = "StatusNotLost" THEN LostShape(lost, retiRan /\ saved # <<>>, top)
+                     ELSE IF c = "DeliveredSourceEnabled" THEN (IF Bit(fr[1], b.src) = 0 THEN "masked-" ELSE "not-pending-") \o SrcName[b.src + 1]
+                     ELSE ""
+          IN /\ (IF c = "ok" THEN bad' = bad ELSE Flag(e, c, <<e.kind, a, b, fr, why>>))
+             /\ saved' = IF D THEN Append(s1, [pc |-> FramePc(fr), f |-> fr[2], imr |-> fr[1], s |-> sAtDelivery, src |-> b.src, isr |-> b.isr]) ELSE s1
              \* "due": deliverable before and still deliverable after the step (the step's own instruction did not mask it)
              /\ prevDue' = (Deliverable(a) /\ Deliverable(b) /\ ~D /\ c # "PromptAfterUnmask")
              /\ wantOff' = IF Bit(a.isr, 3) = 1 \/ Bit(b.isr, 3) = 1 THEN FALSE
